@@ -178,6 +178,7 @@ EXPORT errno_t _wcsnatcmp_s_chk(const wchar_t *dest, rsize_t dmax,
 
     if (fold_case) {
         rsize_t l1, l2;
+        rsize_t d1max, d2max;
         errno_t rc;
 
         /* wcsfc_s reads its source up to the terminator: an operand without
@@ -190,15 +191,24 @@ EXPORT errno_t _wcsnatcmp_s_chk(const wchar_t *dest, rsize_t dmax,
             return RCNEGATE(ESUNTERM);
         }
 
-        d1 = (wchar_t *)malloc(2 * destsz);
-        rc = wcsfc_s(d1, dmax * 2, (wchar_t * restrict) dest, &l1);
+        /* the folded strings: wcsfc_s wants room for at least 5 and accepts
+           at most RSIZE_MAX_WSTR elements */
+        d1max = dmax * 2 + 4;
+        if (d1max > RSIZE_MAX_WSTR)
+            d1max = RSIZE_MAX_WSTR;
+        d2max = smax * 2 + 4;
+        if (d2max > RSIZE_MAX_WSTR)
+            d2max = RSIZE_MAX_WSTR;
+
+        d1 = (wchar_t *)malloc(d1max * sizeof(wchar_t));
+        rc = wcsfc_s(d1, d1max, (wchar_t * restrict) dest, &l1);
         if (rc != EOK) {
             free(d1);
             return rc;
         }
 
-        d2 = (wchar_t *)malloc(2 * srcsz);
-        rc = wcsfc_s(d2, smax * 2, (wchar_t * restrict) src, &l2);
+        d2 = (wchar_t *)malloc(d2max * sizeof(wchar_t));
+        rc = wcsfc_s(d2, d2max, (wchar_t * restrict) src, &l2);
         if (rc != EOK) {
             free(d1);
             free(d2);
